@@ -3,6 +3,7 @@ package core
 import (
 	"fmt"
 	"io"
+	"strings"
 )
 
 func write(w io.Writer, data []byte) (int64, error) {
@@ -48,4 +49,18 @@ func appendSprintf(w io.Writer, format string, args ...interface{}) int64 {
 
 func writeNothing() (int64, error) {
 	return 0, nil
+}
+
+var attributeEscaper = strings.NewReplacer(
+	"&", "&amp;",
+	"<", "&lt;",
+	">", "&gt;",
+	`"`, "&#34;",
+)
+
+// escapeAttribute makes s safe to be used as the value of an attribute that is
+// surrounded by double quotes. A single quote is left alone, it has no meaning
+// there and it is used by the onclick handlers.
+func escapeAttribute(s string) string {
+	return attributeEscaper.Replace(s)
 }
